@@ -243,7 +243,9 @@ def jwe_ops(mon: Mon, alg, enc, zipv, allow, mode, rng):
             return {"registry": None}
         return {"registry": j.jwe.JWERegistry(algorithms=copy.deepcopy(allow))}
 
-    if not allstr:
+    confounded = allstr and alg in g.ALGS and enc in g.ENCS and not g.combo_ok(alg, enc)
+    if not allstr or confounded:
+        # ECDH-1PU key wrapping with a non-CBC-HS enc is refused for its own reason, whatever the allow-list says: only "fails" is judged
         exp = "fail"
     elif not bad:
         exp = "ok" if real else "fail"
